@@ -180,7 +180,10 @@ def run(tier: str, replay=None) -> int:
             try:
                 with rc.quiet():
                     ri = c0.transform_insn(sp_, sp_parsed[nm])
-            except Exception:
+            except Exception as e_:
+                if nm in noped_l:
+                    res.violation({"what": f"no-op listed instruction {nm}, asked for as {sp_!r}, is compiled (and raises {type(getattr(e_, 'orig_exc', e_)).__name__}) instead of being answered with a NOP",
+                                   "reproduce": f"Compiler.transform_insn({sp_!r}, <parse result of {nm}>)"})
                 continue
             evals += 1
             pp = list(prior)
@@ -194,6 +197,23 @@ def run(tier: str, replay=None) -> int:
                 for s_ in m:
                     if s_.startswith("HEX_IL_INSN_ATTR_WRITE_P") and int(s_[-1]) not in pp:
                         pp.append(int(s_[-1]))
+    # ... also when the caller hands over another text under that name (a text that implies attributes)
+    for nm in noped_l:
+        for k_, src_ in enumerate(ATTR_PROGS[:6]):
+            pr = parsed.get(src_)
+            if not pr or pr[0] != "ok":
+                continue
+            sp_ = (nm, "dep_" + nm, "IMPORTED_" + nm, nm + "_undocumented", "undocumented_" + nm)[k_ % 5]
+            try:
+                with rc.quiet():
+                    ri = c0.transform_insn(sp_, ParsedInsn(sp_, [pr[1]], [src_]))
+            except Exception as e_:
+                res.violation({"what": f"no-op listed instruction {nm}, asked for as {sp_!r}, is compiled (raises {type(getattr(e_, 'orig_exc', e_)).__name__}) instead of being answered with a NOP", "program": src_})
+                continue
+            evals += 1
+            if [list(m_) for m_ in ri.meta] != [["HEX_IL_INSN_ATTR_NONE"]]:
+                res.violation({"what": f"no-op listed instruction {nm}, asked for as {sp_!r} with the text {src_!r}, reports {[list(m_) for m_ in ri.meta]} instead of [['HEX_IL_INSN_ATTR_NONE']]",
+                               "reproduce": f"Compiler.transform_insn({sp_!r}, ParsedInsn({sp_!r}, [parser.parse(src)], [src]))"})
     # unimplemented instructions report INVALID
     ui = RZILInstruction.get_unimplemented_rzil_instr("X_dummy")
     if ui.meta != [["HEX_IL_INSN_ATTR_INVALID"]]:
